@@ -77,6 +77,23 @@ def correspond(ctx):
         op = p['op']
         viol.append(dict(key=_panic_key(p['impl']), desc='implementation panicked: ' + p['impl'][:200],
                          replay=dict(op=op[:4000], impl=p['impl'])))
+    st = c.get('stats') if isinstance(c.get('stats'), dict) else {}
+    # hardening class 3/4: results handed out earlier must not change later; concurrent == sequential
+    for v in st.get('retention_violations', []):
+        viol.append(dict(key='returned-data-mutated-by-later-run', desc='bytes returned by an earlier evm.Call/Create changed after a later run', replay=dict(op=v)))
+    for v in st.get('concurrency_mismatches', []):
+        viol.append(dict(key='concurrent-result-differs', desc='a program run by concurrent goroutines gave another result than sequentially (evidence, not proof)', replay=dict(case=v)))
+    # hardening class 1: agreement on a degenerate distribution is a broken tie, not evidence
+    cov = st.get('coverage', {})
+    res = st.get('results', {})
+    floors = dict(live_authcalls=3, static_write_faults=10, frames_at_depth_1025=1, stack_1024_reached=5,
+                  leading_zero_sigs=1, leading_zero_authorities=1, concurrent_runs=50)
+    low = ['%s=%s<%s' % (k, cov.get(k, 0), f) for k, f in floors.items() if c.get('ops', 0) > 0 and cov.get(k, 0) < f]
+    if c.get('ops', 0) > 0 and res.get('ok', 0) < c['ops'] // 10:
+        low.append('ok results=%s of %s ops' % (res.get('ok', 0), c['ops']))
+    if low and not c.get('build_failed'):
+        c['ok'] = False
+        c.setdefault('errors', []).append('coverage floor not reached (degenerate input distribution, tie not credible): ' + ', '.join(low))
     c['violations'] = viol
     return [c]
 
